@@ -54,3 +54,22 @@ Theorem C12_refusal_no_change : forall s fee m,
   fst (deliver s fee m) = with_bank s (credit (cs_bank s) (signer_of m) ROWAN (- fee)).
 Proof. exact deliver_fail_unchanged. Qed.
 Print Assumptions C12_refusal_no_change.
+
+(* edits of the registry (MsgRegister = SetToken, MsgDeregister = RemoveToken, lookups return the first entry of a denom):
+   a registration is what every later lookup of that denom returns and it changes no other denom's entry; after a
+   deregistration the denom is unknown - wherever it stood in the list and however often it was listed - so the transfer
+   gate refuses it (and the AMM handlers, which start with the same lookup, fail) *)
+Theorem C12_register_takes_effect : forall (reg : list (Z * reg_entry_x)) d e,
+  lookup d (set_token d e reg) = Some e /\ (forall d', d' <> d -> lookup d' (set_token d e reg) = lookup d' reg).
+Proof. intros. split; [apply lookup_set_same|intros; apply lookup_set_other; assumption]. Qed.
+Print Assumptions C12_register_takes_effect.
+Theorem C12_deregister_takes_effect : forall (reg : list (Z * reg_entry_x)) d,
+  lookup d (remove_token d reg) = None /\ (forall d', d' <> d -> lookup d' (remove_token d reg) = lookup d' reg) /\
+  forall amt, transfer_gate (remove_token d reg) d amt = false.
+Proof. intros. split; [apply lookup_remove_same|split; [intros; apply lookup_remove_other; assumption|intros; apply gate_after_deregister]]. Qed.
+Print Assumptions C12_deregister_takes_effect.
+Example C12_edit_example :
+  let reg := [(1, mkRE 7 false); (0, mkRE 7 false); (1, mkRE 3 false)] in
+  transfer_gate reg 1 5 = true /\ transfer_gate (remove_token 1 reg) 1 5 = false /\
+  transfer_gate (set_token 1 (mkRE 1 false) reg) 1 5 = false /\ length (set_token 1 (mkRE 1 false) reg) = 3%nat.
+Proof. vm_compute. repeat split; reflexivity. Qed.
